@@ -34,7 +34,8 @@ GenSign(seed, p) == IF Chance(seed, C(p, 3), 1, 9) THEN (IF Chance(seed, C(p, 4)
                     ELSE Chance(seed, C(p, 1), 1, 2)
 GenFeatMod(seed, p) == IF Chance(seed, C(p, 2), 1, 7)
                        THEN LET nd == NodePool[Pick(seed, p, Len(NodePool))] IN
-                            <<"n", nd, IF Chance(seed, C(p, 6), 1, 6) THEN "A" ELSE IF nd = "place" THEN FALSE ELSE Chance(seed, C(p, 1), 1, 3)>>    \* [+place] is not a valid output
+                            <<"n", nd, IF Chance(seed, C(p, 6), 1, 6) THEN "D" ELSE IF nd = "place" THEN FALSE ELSE Chance(seed, C(p, 1), 1, 3)>>    \* [+place] is not a valid output;
+                                                                                      \* node alphas use their own letter (D): one letter for a feature AND a node is ill-typed, its outcome depends on evaluation order
                        ELSE <<"f", FeatPool[Pick(seed, p, Len(FeatPool))], GenSign(seed, p)>>
 NodePairs == << <<"dor", "phr">>, <<"cor", "phr">>, <<"lab", "dor">>, <<"lab", "phr">>, <<"cor", "dor">>, <<"lab", "cor">> >>
 GenSegMods(seed, p) == IF Chance(seed, C(p, 5), 1, 14)
